@@ -8,9 +8,12 @@ echo "== with the change: build + ctest"
 cmake -S "$WT" -B "$WT/_b" -G Ninja -DCMAKE_BUILD_TYPE=Release >/dev/null && cmake --build "$WT/_b" -j16 >/dev/null || { echo "BUILD FAILED"; exit 1; }
 ctest --test-dir "$WT/_b" -j16 --timeout 900 2>&1 | tail -3
 echo "== with the change: demo (must fail)"
+[ -d "$WT/_bp" ] && cmake --build "$WT/_bp" -j16 >/dev/null
 sh "$WT/_seeded/run.sh" > "$WT/_seeded/confirm_with.log" 2>&1; RC1=$?; tail -3 "$WT/_seeded/confirm_with.log"; echo "demo rc=$RC1"
 echo "== without the change: demo (must pass)"
 git stash -q -- src
+cmake --build "$WT/_b" -j16 >/dev/null
+[ -d "$WT/_bp" ] && cmake --build "$WT/_bp" -j16 >/dev/null
 sh "$WT/_seeded/run.sh" > "$WT/_seeded/confirm_without.log" 2>&1; RC2=$?; tail -3 "$WT/_seeded/confirm_without.log"; echo "demo rc=$RC2"
 git stash pop -q
 [ "$RC1" -ne 0 ] && [ "$RC2" -eq 0 ] && echo "CONFIRMED" || echo "NOT CONFIRMED"
